@@ -17,6 +17,7 @@ for d in sorted(glob.glob(os.path.join(V, "seeded", "*"))):
 tbl = "| Seeded change | What it changes | What it needs to manifest | Outcome |\n|---|---|---|---|\n" + "\n".join(rows) + "\n"
 p = os.path.join(V, "DESIGN.md")
 s = open(p).read()
-s2 = re.sub(r"<!-- SEEDED-TABLE-BEGIN -->.*<!-- SEEDED-TABLE-END -->", "<!-- SEEDED-TABLE-BEGIN -->\n" + tbl + "<!-- SEEDED-TABLE-END -->", s, flags=re.S)
+a = s.index("<!-- SEEDED-TABLE-BEGIN -->"); b = s.index("<!-- SEEDED-TABLE-END -->")
+s2 = s[:a] + "<!-- SEEDED-TABLE-BEGIN -->\n" + tbl + s[b:]
 open(p, "w").write(s2)
 print(len(rows), "rows")
